@@ -650,23 +650,33 @@ theorem goodEntry_of_sig (t : Bool) {name : Bytes} {f : FilterImpl} (sg0 : Filte
   cases hs
   exact h
 
-/-- the filters whose bodies are not shown to respect the equivalence: `uniq` does not (it compares
-    elements by Go interface equality: see the counterexample in `Proofs/C18.lean`); `sort` and
-    `sort_natural` are open -/
-def openFilters : List Bytes := [ArrF.bn "sort", ArrF.bn "uniq", ArrF.bn "sort_natural"]
+/-- the filters that *observe the Go representation* and therefore do not respect the equivalence:
+    `uniq` compares elements by Go interface equality; `type` prints the Go type (`[]int` against
+    `[]interface {}`); `json` and `inspect` marshal the Go value (a `[]uint8` is base64 text, a
+    `map[any]any` is rejected, where the generic slice / the string-keyed map print their elements).
+    Counterexamples in `Proofs/C18.lean`. -/
+def reprFilters : List Bytes := [ArrF.bn "uniq", JsonF.bn "json", JsonF.bn "inspect", JsonF.bn "type"]
+
+/-- the filters whose bodies are not shown to respect the equivalence exactly: `reprFilters` do not;
+    `sort` and `sort_natural` are open (they do up to `unmodelled`: `Proofs/RepEqSort.lean`) -/
+def openFilters : List Bytes := [ArrF.bn "sort", ArrF.bn "uniq", ArrF.bn "sort_natural",
+  JsonF.bn "json", JsonF.bn "inspect", JsonF.bn "type"]
 
 theorem strGlue_scalar : StrGlue.names.all (fun n => scalarSigB n.toUTF8.toList) = true := by decide +kernel
 
-/-- every entry of the table is good, except the excluded names; the three open entries are good
+/-- every entry of the table is good, except the excluded names; the six open entries are good
     when they are not excluded and shown good -/
 theorem goodEntry_table (t : Bool) (excl : List Bytes)
     (hs : ArrF.bn "sort" ∉ excl → goodEntry t (ArrF.bn "sort", ArrF.eager ArrF.sort))
     (hu : ArrF.bn "uniq" ∉ excl → goodEntry t (ArrF.bn "uniq", ArrF.eager ArrF.uniq))
-    (hnat : ArrF.bn "sort_natural" ∉ excl → goodEntry t (ArrF.bn "sort_natural", ArrF.eager ArrF.sortNatural)) :
+    (hnat : ArrF.bn "sort_natural" ∉ excl → goodEntry t (ArrF.bn "sort_natural", ArrF.eager ArrF.sortNatural))
+    (hjson : JsonF.bn "json" ∉ excl → goodEntry t (JsonF.bn "json", JsonF.json))
+    (hinsp : JsonF.bn "inspect" ∉ excl → goodEntry t (JsonF.bn "inspect", JsonF.inspect))
+    (htype : JsonF.bn "type" ∉ excl → goodEntry t (JsonF.bn "type", JsonF.typeF)) :
     ∀ e ∈ stdFilterImpls, e.1 ∉ excl → goodEntry t e := by
   intro e he hn
   simp only [stdFilterImpls, List.mem_append] at he
-  rcases he with (he | he) | he
+  rcases he with ((he | he) | he) | he
   · simp only [Num.impls, List.mem_cons, List.not_mem_nil, or_false] at he
     rcases he with rfl | rfl | rfl | rfl | rfl | rfl | rfl | rfl | rfl | rfl | rfl
     · exact goodEntry_of_scalar t (by decide +kernel) _
@@ -695,10 +705,16 @@ theorem goodEntry_table (t : Bool) (excl : List Bytes)
     · exact goodEntry_of_sig t ⟨ArrF.bn "last", [.val .anys], false⟩ (by decide +kernel) (ArrF.last_respects t)
     · exact hu hn
     · exact hnat hn
+  · simp only [JsonF.impls, List.mem_cons, List.not_mem_nil, or_false] at he
+    rcases he with rfl | rfl | rfl
+    · exact hjson hn
+    · exact hinsp hn
+    · exact htype hn
 
 theorem goodEntry_std (t : Bool) : ∀ e ∈ stdFilterImpls, e.1 ∉ openFilters → goodEntry t e :=
   goodEntry_table t openFilters (fun h => absurd (by simp [openFilters]) h) (fun h => absurd (by simp [openFilters]) h)
-    (fun h => absurd (by simp [openFilters]) h)
+    (fun h => absurd (by simp [openFilters]) h) (fun h => absurd (by simp [openFilters]) h)
+    (fun h => absurd (by simp [openFilters]) h) (fun h => absurd (by simp [openFilters]) h)
 
 theorem lookupImpl_mem {tbl : List (Bytes × FilterImpl)} {name : Bytes} {f : FilterImpl}
     (h : lookupImpl tbl name = some f) : (name, f) ∈ tbl := by
@@ -715,7 +731,7 @@ theorem lookupImpl_mem {tbl : List (Bytes × FilterImpl)} {name : Bytes} {f : Fi
     subst hp h
     exact hm
 
-/-- every standard filter other than `sort`, `uniq`, `sort_natural` respects representation
+/-- every standard filter other than `sort`, `uniq`, `sort_natural`, `json`, `inspect`, `type` respects representation
     equivalence (`d = false`), for every name (registered or not) -/
 theorem filterRespects_std (t : Bool) (name : Bytes) (h : name ∉ openFilters) : FilterRespects t name :=
   filterRespects_of_impl name (fun sg f hs hf => goodEntry_std t (name, f) (lookupImpl_mem hf) h sg hs)
@@ -754,8 +770,8 @@ theorem stdPrimsOnly_respects (allowed : Bytes → Bool)
 /-- the engine without `sort`, `uniq` and `sort_natural` -/
 def coreFilters (n : Bytes) : Bool := !openFilters.contains n
 
-/-- the engine without `uniq` -/
-def withoutUniq (n : Bytes) : Bool := !(n == ArrF.bn "uniq")
+/-- the engine without the filters that observe the Go representation (`uniq`, `json`, `inspect`, `type`) -/
+def withoutRepr (n : Bytes) : Bool := !reprFilters.contains n
 
 /-- the length of an array result (for the examples of `Proofs/C18.lean`) -/
 def lenOfRes : Res Cause GoVal → Nat
